@@ -1428,6 +1428,8 @@ class Norm:
             if effs:
                 # `{ f(x); }` is `f(x)` in every context that accepts the unit block
                 tail = effs[0] if len(effs) == 1 and tail == ("lit", "()") and effs[0][0] in ("call", "for", "if", "match", "seq") else ("seq", effs, tail)
+            if not early and id(e) in self._ret_blocks:
+                tail = _opt_chain(tail)
             if early:
                 early2 = []
                 for c, v in early:
@@ -1642,7 +1644,22 @@ def _ret_chain(early, tail):
     if suf:
         suf, tail = _guards_to_try(suf, tail)
         tail = _unreturn(("early", suf, tail)) if suf else tail
+    tail = _opt_chain(tail)
     return ("early", pre, tail) if pre else tail
+
+
+def _opt_chain(t):
+    """as the result of a fn / closure:  if let Some(v) = X { f(v) } else { None }   ==   f(X?)     (likewise inside else branches)"""
+    if t[0] == "if":
+        els = _opt_chain(t[3])
+        c = t[1]
+        if c[0] == "iflet" and re.fullmatch(r"(v1|Option)::Some\(\$\)", c[1]) and els == ("def", "v1::None"):
+            payload = ("proj", c[2], c[1].split("(")[0], "0")
+            tr = ("try", c[2])
+            return _opt_chain(rewrite(t[2], lambda n: tr if n == payload else None))
+        if els is not t[3]:
+            return ("if", c, t[2], els)
+    return t
 
 
 def _guards_to_try(early, tail):
